@@ -52,31 +52,30 @@ Proof.
   destruct (reps3_In_fp _ _ _ _ _ Hr Hf) as (j & x & _ & Ho). eapply orep_fp; eauto.
 Qed.
 
-Lemma splice_fp_cases : forall (fps fu : list (list nat)) st en a,
-  In a (concat (firstn st fps ++ fu ++ skipn en fps)) -> In a (concat fps) \/ In a (concat fu).
+Lemma reps3_concat_lt3 : forall h ps jsA EA fpsA ju us fu jsC EC fpsC a,
+  reps3 (orep h ps) jsA EA fpsA -> reps3 (orep h ps) ju us fu -> reps3 (orep h ps) jsC EC fpsC ->
+  In a (concat (fpsA ++ fu ++ fpsC)) -> a < length h.
 Proof.
-  intros fps fu st en a. rewrite !concat_app, !in_app_iff. intros [H|[H|H]]; auto.
-  - left. eapply concat_firstn_in; eauto.
-  - left. eapply concat_skipn_in; eauto.
+  intros. rewrite !concat_app, !in_app_iff in H2. destruct H2 as [H2|[H2|H2]];
+    [apply (reps3_concat_fp _ _ _ _ _ _ H) in H2 | apply (reps3_concat_fp _ _ _ _ _ _ H0) in H2 | apply (reps3_concat_fp _ _ _ _ _ _ H1) in H2]; tauto.
 Qed.
 
-Lemma splice_fresh_g : forall h ps js (E : list hval) fps ju us fu st en FP,
-  alloc_wf ps -> reps3 (orep h ps) js E fps -> reps3 (orep h ps) ju us fu ->
-  NoDup (concat (firstn st fps ++ fu ++ skipn en fps)) ->
-  (forall a0, In a0 (concat (firstn st fps ++ fu ++ skipn en fps)) -> In a0 FP) ->
-  let EN := firstn st E ++ us ++ skipn en E in
+(* prefix A ++ spliced elements ++ suffix C, built in a fresh allocated array *)
+Lemma splice_fresh_g : forall h ps jsA (EA : list hval) fpsA ju us fu jsC EC fpsC FP,
+  alloc_wf ps -> reps3 (orep h ps) jsA EA fpsA -> reps3 (orep h ps) ju us fu -> reps3 (orep h ps) jsC EC fpsC ->
+  NoDup (concat (fpsA ++ fu ++ fpsC)) ->
+  (forall a0, In a0 (concat (fpsA ++ fu ++ fpsC)) -> In a0 FP) ->
+  let EN := EA ++ us ++ EC in
   let b := length h in
   let h' := h ++ [OArr EN] in
   let ps' := PArr b 0 :: ps in
-  let fp' := b :: concat (firstn st fps ++ fu ++ skipn en fps) in
-  orep h' ps' (JArr (firstn st js ++ ju ++ skipn en js)) (HArr b 0 (length EN) (length EN)) fp' /\
+  let fp' := b :: concat (fpsA ++ fu ++ fpsC) in
+  orep h' ps' (JArr (jsA ++ ju ++ jsC)) (HArr b 0 (length EN) (length EN)) fp' /\
   NoDup fp' /\ post h ps FP h' ps' fp'.
 Proof.
-  intros h ps js E fps ju us fu st en FP Hwf Hrep Hu ND HFP EN b h' ps' fp'.
-  assert (Hlt : forall a0, In a0 (concat (firstn st fps ++ fu ++ skipn en fps)) -> a0 < length h).
-  { intros a0 Hin. destruct (splice_fp_cases _ _ _ _ _ Hin) as [H|H].
-    - apply (reps3_concat_fp _ _ _ _ _ _ Hrep) in H. tauto.
-    - apply (reps3_concat_fp _ _ _ _ _ _ Hu) in H. tauto. }
+  intros h ps jsA EA fpsA ju us fu jsC EC fpsC FP Hwf HA Hu HC ND HFP EN b h' ps' fp'.
+  assert (Hlt : forall a0, In a0 (concat (fpsA ++ fu ++ fpsC)) -> a0 < length h).
+  { intros a0 Hin. exact (reps3_concat_lt3 _ _ _ _ _ _ _ _ _ _ _ _ HA Hu HC Hin). }
   assert (Hold : forall a0, a0 < length h -> nth_error h' a0 = nth_error h a0).
   { intros. unfold h'. apply nth_error_app1. auto. }
   assert (Haddr : forall a0, aaddr ps' a0 -> aaddr ps a0 \/ length h <= a0).
@@ -86,11 +85,13 @@ Proof.
     - left. right. auto. }
   assert (Hframe : forall j x f, orep h ps j x f -> orep h' ps' j x f).
   { intros. apply orep_frame with (h := h) (ps := ps); auto. intros p Hp. right. auto. }
+  assert (Hmono : forall js xs fps, reps3 (orep h ps) js xs fps -> reps3 (orep h' ps') js xs fps).
+  { intros. eapply reps3_mono; [|eauto]. rewrite Forall_forall. intros. apply Hframe. auto. }
   split; [|split].
-  - apply orep_arr. exists b, 0, (length EN), (length EN), EN, (firstn st fps ++ fu ++ skipn en fps).
+  - apply orep_arr. exists b, 0, (length EN), (length EN), EN, (fpsA ++ fu ++ fpsC).
     split; [reflexivity|]. split. { unfold h', b. apply nth_error_app_last. }
     split. { lia. }
-    split. { rewrite skipn_O, firstn_all. apply (reps3_splice (orep h ps)); auto. }
+    split. { rewrite skipn_O, firstn_all. apply reps3_app; auto. apply reps3_app; auto. }
     right. split. { left. auto. } split; auto. split; auto. split; auto.
     rewrite skipn_all. constructor.
   - constructor; auto. intro Hc. apply Hlt in Hc. unfold b in Hc. lia.
@@ -105,35 +106,23 @@ Proof.
       assert (a0 = b) by (unfold b; lia). subst a0. left. exists 0. left. auto.
 Qed.
 
-Lemma splice_inplace_g : forall h ps js a len cells fps ju us fu st en FP,
+(* the same, written in place over the window M of an allocated array *)
+Lemma splice_inplace_g : forall h ps a jsA (EA : list hval) fpsA (M : list hval) ju us fu jsC EC fpsC N FP,
   alloc_wf ps ->
-  nth_error h a = Some (OArr cells) -> len <= length cells -> In (PArr a 0) ps ->
-  Forall (eq HNull) (skipn len cells) ->
-  reps3 (orep h ps) js (firstn len cells) fps -> reps3 (orep h ps) ju us fu ->
-  st <= en -> en <= len -> length us = en - st ->
-  NoDup (a :: concat (firstn st fps ++ fu ++ skipn en fps)) ->
-  (forall a0, In a0 (concat (firstn st fps ++ fu ++ skipn en fps)) -> In a0 FP) -> In a FP ->
-  let cells' := firstn st cells ++ us ++ skipn en cells in
+  nth_error h a = Some (OArr (EA ++ M ++ EC ++ N)) -> In (PArr a 0) ps -> Forall (eq HNull) N ->
+  reps3 (orep h ps) jsA EA fpsA -> reps3 (orep h ps) ju us fu -> reps3 (orep h ps) jsC EC fpsC ->
+  length us = length M ->
+  NoDup (a :: concat (fpsA ++ fu ++ fpsC)) ->
+  (forall a0, In a0 (concat (fpsA ++ fu ++ fpsC)) -> In a0 FP) -> In a FP ->
+  let cells' := EA ++ us ++ EC ++ N in
   let h' := set_list h a (OArr cells') in
-  let fp' := a :: concat (firstn st fps ++ fu ++ skipn en fps) in
-  orep h' ps (JArr (firstn st js ++ ju ++ skipn en js)) (HArr a 0 len (length cells)) fp' /\
+  let fp' := a :: concat (fpsA ++ fu ++ fpsC) in
+  orep h' ps (JArr (jsA ++ ju ++ jsC)) (HArr a 0 (length (EA ++ us ++ EC)) (length cells')) fp' /\
   NoDup fp' /\ post h ps FP h' ps fp'.
 Proof.
-  intros h ps js a len cells fps ju us fu st en FP Hwf Hn Hl Hp Hj Hrep Hu Hse Hel Hus ND HFP HaFP cells' h' fp'.
+  intros h ps a jsA EA fpsA M ju us fu jsC EC fpsC N FP Hwf Hn Hp Hj HA Hu HC Hus ND HFP HaFP cells' h' fp'.
   pose proof (nth_error_lt _ _ _ Hn) as Ha.
-  assert (Hanew : ~ In a (concat (firstn st fps ++ fu ++ skipn en fps))) by (inversion ND; auto).
-  set (E := firstn len cells) in *.
-  assert (HE : length E = len) by (unfold E; rewrite firstn_length; lia).
-  assert (Hcells : cells = E ++ skipn len cells) by (unfold E; symmetry; apply firstn_skipn).
-  assert (Hc' : cells' = (firstn st E ++ us ++ skipn en E) ++ skipn len cells).
-  { unfold cells'. rewrite Hcells at 1 2.
-    rewrite firstn_app. replace (st - length E) with 0 by lia. rewrite firstn_O, app_nil_r.
-    rewrite skipn_app. replace (en - length E) with 0 by lia. rewrite skipn_O.
-    rewrite <- !app_assoc. auto. }
-  assert (HlenEN : length (firstn st E ++ us ++ skipn en E) = len).
-  { rewrite !app_length, firstn_length, skipn_length. lia. }
-  assert (Hlc : length cells' = length cells).
-  { rewrite Hc', app_length, HlenEN, skipn_length. lia. }
+  assert (Hanew : ~ In a (concat (fpsA ++ fu ++ fpsC))) by (inversion ND; auto).
   assert (Hother : forall a0, a0 <> a -> nth_error h' a0 = nth_error h a0).
   { intros. unfold h'. apply nth_error_set_list_other. auto. }
   assert (Hframe : forall j x f, orep h ps j x f -> (forall a0, In a0 f -> a0 <> a) -> orep h' ps j x f).
@@ -141,24 +130,23 @@ Proof.
     intros a0 Ha0 [Hna|Hin]; apply Hother.
     - intro Heq; subst a0. apply Hna. left. eauto.
     - apply Hne. auto. }
+  assert (Hmono : forall js xs fps, reps3 (orep h ps) js xs fps -> (forall f, In f fps -> In f (fpsA ++ fu ++ fpsC)) ->
+                  reps3 (orep h' ps) js xs fps).
+  { intros js xs fps Hr Hsub. eapply reps3_mono_in; [|exact Hr]. rewrite Forall_forall. intros x _ y z Hz Hxr.
+    apply Hframe; auto. intros a0 Ha0 Heq. subst a0. apply Hanew. eapply in_concat_of; eauto. }
   split; [|split].
-  - apply orep_arr. exists a, 0, len, (length cells), cells', (firstn st fps ++ fu ++ skipn en fps).
+  - apply orep_arr. exists a, 0, (length (EA ++ us ++ EC)), (length cells'), cells', (fpsA ++ fu ++ fpsC).
     split; [reflexivity|]. split. { unfold h'. apply nth_error_set_list_same. auto. }
-    split. { lia. }
+    split. { unfold cells'. rewrite !app_length. lia. }
     split.
-    + rewrite skipn_O, Hc'. rewrite firstn_app_exact by auto.
-      assert (Hkeep : forall f, In f (firstn st fps ++ fu ++ skipn en fps) -> forall a0, In a0 f -> a0 <> a).
-      { intros f Hf a0 Ha0 Heq. subst a0. apply Hanew. eapply in_concat_of; eauto. }
-      apply reps3_app.
-      { eapply reps3_mono_in; [|apply reps3_firstn; exact Hrep]. rewrite Forall_forall. intros x _ y z Hz Hr.
-        apply Hframe; auto. apply Hkeep. rewrite in_app_iff. auto. }
-      apply reps3_app.
-      { eapply reps3_mono_in; [|exact Hu]. rewrite Forall_forall. intros x _ y z Hz Hr.
-        apply Hframe; auto. apply Hkeep. rewrite !in_app_iff. auto. }
-      eapply reps3_mono_in; [|apply reps3_skipn; exact Hrep]. rewrite Forall_forall. intros x _ y z Hz Hr.
-      apply Hframe; auto. apply Hkeep. rewrite !in_app_iff. auto.
+    + rewrite skipn_O. replace cells' with ((EA ++ us ++ EC) ++ N) by (unfold cells'; rewrite <- !app_assoc; auto).
+      rewrite firstn_app_exact by auto.
+      apply reps3_app. { apply Hmono; [exact HA | intros f Hf; rewrite in_app_iff; auto]. }
+      apply reps3_app. { apply Hmono; [exact Hu | intros f Hf; rewrite !in_app_iff; auto]. }
+      apply Hmono; [exact HC | intros f Hf; rewrite !in_app_iff; auto].
     + right. split; auto. split; auto. split; auto. split; auto.
-      rewrite Hc'. rewrite skipn_app_exact by auto. auto.
+      replace cells' with ((EA ++ us ++ EC) ++ N) by (unfold cells'; rewrite <- !app_assoc; auto).
+      rewrite skipn_app_exact by auto. auto.
   - auto.
   - apply post_intro.
     + unfold h'. rewrite set_list_length. auto.
@@ -180,6 +168,20 @@ Qed.
 (* is v an array header (what updateArraySlice accepts back from the recursive call) *)
 Definition is_arr (u : hval) : Prop := match u with HArr _ _ _ _ | HNilArr => True | _ => False end.
 
+Lemma update_idx_arr_gen : forall cfg h A sub i r n, is_arr sub ->
+  update cfg h A sub (PI i :: r) n =
+  (let len := Z.of_nat (hlen sub) in
+   let j := clamp i (-1) len in
+   if (j <? 0)%Z then (if h_is_empty n then Some (h, A, norm_nil sub) else None)
+   else if (j <? len)%Z then
+     match update cfg h A (nth (Z.to_nat j) (elems h sub) HNull) r n with
+     | None => None | Some (h1, A1, u) => arr_write h1 A1 sub (Z.to_nat j) u end
+   else if h_is_empty n then Some (h, A, norm_nil sub)
+   else if (max_index <=? i)%Z then None
+   else match update cfg h A HNull r n with
+        | None => None | Some (h1, A1, u) => arr_write h1 A1 sub (Z.to_nat i) u end).
+Proof. intros. rewrite update_idx_eq. destruct sub; try contradiction; reflexivity. Qed.
+
 (* ---- the recursive call on the window, first component an index ----
    The window [sub] shows the elements E (children jsW with footprints fpsW, owned by the caller); its own
    pointer is either unknown to the allocator (then every write copies it) or known (the window starts at
@@ -194,7 +196,7 @@ Lemma window_idx : forall cfg i r, sound_at cfg r ->
   reps3 (orep h ps) jsW E fpsW -> NoDup (concat fpsW) ->
   orep h ps jn n [] ->
   (h_is_empty n = false \/ sub <> HNilArr) ->
-  ((forall ps1, (forall a0, aaddr ps1 a0 -> aaddr ps a0 \/ length h <= a0) -> allocated (Some ps1) sub = false) \/
+  ((forall ps1, alloc_wf ps1 -> (forall a0, aaddr ps1 a0 -> aaddr ps a0 \/ length h <= a0) -> allocated (Some ps1) sub = false) \/
    ((forall ps1, (forall p, In p ps -> In p ps1) -> allocated (Some ps1) sub = true) /\
     ~ (0 <= clamp i (-1) (Z.of_nat (length E)) < Z.of_nat (length E))%Z)) ->
   match Path.update (JArr jsW) (PI i :: r) jn with
@@ -219,7 +221,8 @@ Proof.
             post h ps (concat fpsW) h1 ps1 (concat fu)).
   { intros Hmark. destruct Hnm as [Hnm|Hnm]; [congruence|].
     assert (norm_nil sub = sub) by (destruct sub; auto; congruence).
-    exists jsW, h, ps, sub, fpsW. rewrite H, HelemsH. repeat split; auto; try apply post_refl; auto. lia. }
+    exists jsW, h, ps, sub, fpsW. rewrite H, HelemsH.
+    split; auto. split; auto. split; auto. split; auto. split; auto. split; auto. apply post_refl; auto. }
   (* the copy into a fresh array *)
   assert (Hfresh : forall c k jx x h1 ps1 ju u fu,
     orep h ps jx x (nth k fpsW []) ->
@@ -254,7 +257,472 @@ Proof.
     split; auto. split. { rewrite firstn_length. simpl in Hlb. lia. }
     split; [exact Hcb|]. split. { inversion R2; auto. }
     eapply post_weaken; eauto. intros a0 Ha0. right. auto. }
-  rewrite update_idx_eq. rewrite Hhl.
-  assert (Hv : match sub with HNull | HNilArr | HArr _ _ _ _ => True | _ => False end) by (destruct sub; auto).
-  rewrite update_idx_arr_gen.
-Abort.
+  rewrite (update_idx_arr_gen _ _ _ _ _ _ _ Hisarr). cbn [Path.update]. cbv zeta.
+  unfold zlen. rewrite Hhl, HelemsH, <- L1, <- Hemp.
+  set (j0 := clamp i (-1) (Z.of_nat (length jsW))).
+  (* what arr_write does on the window: never in place *)
+  assert (Hwrite : forall k jx x h1 ps1 ju u fu,
+    (length E <= k \/ (forall ps1, alloc_wf ps1 -> (forall a0, aaddr ps1 a0 -> aaddr ps a0 \/ length h <= a0) -> allocated (Some ps1) sub = false)) ->
+    orep h ps jx x (nth k fpsW []) ->
+    orep h1 ps1 ju u fu -> NoDup fu -> post h ps (nth k fpsW []) h1 ps1 fu ->
+    exists jsW' h2 ps2 w fw,
+      JArr (set_nth jsW k ju) = JArr jsW' /\ arr_write h1 (Some ps1) sub k u = Some (h2, Some ps2, w) /\
+      is_arr w /\ hlen w = length (elems h2 w) /\ reps3 (orep h2 ps2) jsW' (elems h2 w) fw /\ NoDup (concat fw) /\
+      post h ps (concat fpsW) h2 ps2 (concat fw)).
+  { intros k jx x h1 ps1 ju u fu Hk Hx Hu NDu Hpost.
+    pose proof Hpost as (P1 & P2 & P3 & P4 & P5 & P6 & P7).
+    unfold arr_write. rewrite Hcap.
+    destruct (allocated (Some ps1) sub) eqn:Eal.
+    - destruct Hk as [Hk | Hk]. 2:{ rewrite Hk in Eal; [discriminate|auto|auto]. }
+      replace (Nat.ltb k (length E)) with false by (symmetry; apply Nat.ltb_ge; lia).
+      eapply Hfresh; eauto.
+    - eapply Hfresh; eauto. }
+  destruct (j0 <? 0)%Z eqn:E1.
+  { destruct (is_empty jn) eqn:Em; [|reflexivity]. apply Hsame. congruence. }
+  destruct (j0 <? Z.of_nat (length jsW))%Z eqn:E2.
+  { (* inside the window: only when the window's pointer is unknown to the allocator *)
+    assert (Hk : Z.to_nat j0 < length jsW) by lia.
+    pose proof (reps3_nth _ JNull HNull [] _ _ _ _ Hrep Hk) as Hx.
+    assert (NDx : NoDup (nth (Z.to_nat j0) fpsW [])) by (apply NoDup_nth; auto).
+    specialize (IH h ps _ _ _ n jn Hwf Hx NDx Hn).
+    destruct (Path.update (nth (Z.to_nat j0) jsW JNull) r jn) as [ju|]; [|rewrite IH; auto].
+    destruct IH as (h1 & ps1 & u & fu & -> & Hu & NDu & Hpost).
+    eapply Hwrite; eauto. right.
+    destruct Hcls as [Hc|[_ Hc]]; auto. exfalso. apply Hc. unfold j0 in *. rewrite <- L1. lia. }
+  destruct (is_empty jn) eqn:Em. { apply Hsame. congruence. }
+  destruct (max_index <=? i)%Z; auto.
+  assert (Hi : length jsW <= Z.to_nat i).
+  { unfold j0, clamp in E1, E2. destruct (i <? 0)%Z eqn:Ei;
+    repeat match type of E2 with context [if ?c then _ else _] => destruct c eqn:? end; lia. }
+  assert (Hx0 : orep h ps JNull HNull (nth (Z.to_nat i) fpsW [])).
+  { rewrite nth_overflow by lia. split; auto. }
+  assert (NDx : NoDup (nth (Z.to_nat i) fpsW [])) by (apply NoDup_nth; auto).
+  specialize (IH h ps _ _ _ n jn Hwf Hx0 NDx Hn).
+  destruct (Path.update JNull r jn) as [ju|]; [|rewrite IH; auto].
+  destruct IH as (h1 & ps1 & u & fu & -> & Hu & NDu & Hpost).
+  eapply Hwrite; eauto. left. lia.
+Qed.
+
+
+(* ---- the splice after the recursive call ---- *)
+Lemma NoDup_splice3 : forall (fpsA fpsM fpsC fu : list (list nat)) K,
+  NoDup (concat (fpsA ++ fpsM ++ fpsC)) -> NoDup (concat fu) ->
+  (forall a, In a (concat fu) -> In a (concat fpsM) \/ K <= a) ->
+  (forall a, In a (concat fpsA) \/ In a (concat fpsC) -> a < K) ->
+  NoDup (concat (fpsA ++ fu ++ fpsC)).
+Proof.
+  intros fpsA fpsM fpsC fu K ND NDu Hfu HK. rewrite !concat_app in *.
+  apply nodup_app in ND as (NA & NMC & DA). apply nodup_app in NMC as (NM & NC & DM).
+  apply nodup_app. split; auto. split.
+  - apply nodup_app. split; auto. split; auto. intros a Hu Hc. destruct (Hfu a Hu) as [H|H].
+    + apply (DM a H Hc).
+    + assert (a < K) by (apply HK; auto). lia.
+  - intros a Ha Hin. rewrite in_app_iff in Hin. destruct Hin as [Hu|Hc].
+    + destruct (Hfu a Hu) as [H|H]. { apply (DA a Ha). rewrite in_app_iff. auto. }
+      assert (a < K) by (apply HK; auto). lia.
+    + apply (DA a Ha). rewrite in_app_iff. auto.
+Qed.
+
+Lemma slice_finish : forall h ps js v E fps fp st en h1 ps1 u fu jsW',
+  alloc_wf ps -> arr_node h ps js v E fps fp -> NoDup fp -> st <= en -> en <= length E ->
+  is_arr u -> hlen u = length (elems h1 u) ->
+  reps3 (orep h1 ps1) jsW' (elems h1 u) fu -> NoDup (concat fu) ->
+  post h ps (concat (firstn (en - st) (skipn st fps))) h1 ps1 (concat fu) ->
+  exists h' ps' w fp',
+    slice_write h1 (Some ps1) v st en u = Some (h', Some ps', w) /\
+    orep h' ps' (JArr (firstn st js ++ jsW' ++ skipn en js)) w fp' /\ NoDup fp' /\ post h ps fp h' ps' fp'.
+Proof.
+  intros h ps js v E fps fp st en h1 ps1 u fu jsW' Hwf Hnode ND Hse Hel Hisarr Hul Hu NDu Hpost.
+  destruct (node_facts _ _ _ _ _ _ _ Hnode ND) as (Hrep & NDc & Hcl).
+  destruct (reps3_length _ _ _ _ Hrep) as [L1 L2].
+  pose proof Hpost as (P1 & P2 & P3 & P4 & P5 & P6 & P7).
+  set (us := elems h1 u) in *.
+  set (fpsA := firstn st fps). set (fpsM := firstn (en - st) (skipn st fps)) in *. set (fpsC := skipn en fps).
+  set (jsA := firstn st js). set (jsC := skipn en js). set (EA := firstn st E). set (EC := skipn en E).
+  assert (Hfps : fps = fpsA ++ fpsM ++ fpsC) by (apply split3; auto).
+  assert (HA : reps3 (orep h ps) jsA EA fpsA) by (apply reps3_firstn; auto).
+  assert (HC : reps3 (orep h ps) jsC EC fpsC) by (apply reps3_skipn; auto).
+  assert (NDc3 : NoDup (concat (fpsA ++ fpsM ++ fpsC))) by (rewrite <- Hfps; auto).
+  assert (HinA : forall a0, In a0 (concat fpsA) -> In a0 (concat fps)) by (intros; eapply concat_firstn_in; eauto).
+  assert (HinC : forall a0, In a0 (concat fpsC) -> In a0 (concat fps)) by (intros; eapply concat_skipn_in; eauto).
+  assert (HinM : forall a0, In a0 (concat fpsM) -> In a0 (concat fps)).
+  { intros a0 H. rewrite Hfps, !concat_app, !in_app_iff. auto. }
+  assert (HdisA : forall a0, In a0 (concat fpsA) \/ In a0 (concat fpsC) -> ~ In a0 (concat fpsM)).
+  { intros a0 Hac Hm. rewrite !concat_app in NDc3. apply nodup_app in NDc3 as (_ & NMC & DA).
+    apply nodup_app in NMC as (_ & _ & DM). destruct Hac as [H|H].
+    - apply (DA a0 H). rewrite in_app_iff. auto.
+    - apply (DM a0 Hm H). }
+  (* the children that stay are as they were *)
+  assert (Hkeep : forall j x f, orep h ps j x f -> (forall a0, In a0 f -> In a0 (concat fpsA) \/ In a0 (concat fpsC)) ->
+                  orep h1 ps1 j x f).
+  { intros j x f Hr Hf. apply orep_frame with (h := h) (ps := ps); auto.
+    intros a0 Ha0 Hor. apply P2; auto. intro Hm. destruct Hor as [Hna|Hin].
+    - apply Hna. apply HinM in Hm. apply (reps3_concat_fp _ _ _ _ _ _ Hrep) in Hm. tauto.
+    - apply (HdisA a0); auto. }
+  assert (HA1 : reps3 (orep h1 ps1) jsA EA fpsA).
+  { eapply reps3_mono_in; [|exact HA]. rewrite Forall_forall. intros x _ y z Hz Hr. apply Hkeep; auto.
+    intros a0 Ha0. left. eapply in_concat_of; eauto. }
+  assert (HC1 : reps3 (orep h1 ps1) jsC EC fpsC).
+  { eapply reps3_mono_in; [|exact HC]. rewrite Forall_forall. intros x _ y z Hz Hr. apply Hkeep; auto.
+    intros a0 Ha0. right. eapply in_concat_of; eauto. }
+  assert (Hlt : forall a0, In a0 (concat fpsA) \/ In a0 (concat fpsC) -> a0 < length h).
+  { intros a0 [H|H]; [apply HinA in H | apply HinC in H]; apply Hcl in H; tauto. }
+  assert (ND3 : NoDup (concat (fpsA ++ fu ++ fpsC))).
+  { apply (NoDup_splice3 fpsA fpsM fpsC fu (length h)); auto. }
+  assert (HFPsub : forall a0, In a0 (concat (fpsA ++ fu ++ fpsC)) -> In a0 fp \/ length h <= a0).
+  { intros a0 H. rewrite !concat_app, !in_app_iff in H. destruct H as [H|[H|H]].
+    - left. apply Hcl. auto.
+    - destruct (P5 _ H) as [H0|H0]; auto. left. apply Hcl. auto.
+    - left. apply Hcl. auto. }
+  assert (Hpost' : post h ps fp h1 ps1 (concat fu)).
+  { eapply post_weaken; eauto. intros a0 H. apply Hcl. auto. }
+  assert (HlEA : length EA = st) by (unfold EA; rewrite firstn_length; lia).
+  assert (HlEC : length EC = length E - en) by (unfold EC; rewrite skipn_length; lia).
+  assert (Hus : hlen u = length us) by auto.
+  (* the fresh-array branch *)
+  assert (Hfresh : elems h1 v = E -> hlen v = length E ->
+    exists h' ps' w fp',
+      (let src := elems h1 v in
+       let '(h2, A2, w) := make_array h1 (Some ps1) (hlen v - (en - st) + hlen u) 0 in
+       match w with
+       | HArr b _ _ _ =>
+           Some (write_cells (write_cells (write_cells h2 b 0 (firstn st src)) b (st + hlen u) (skipn en src)) b st us, A2, w)
+       | _ => None
+       end) = Some (h', Some ps', w) /\
+      orep h' ps' (JArr (jsA ++ jsW' ++ jsC)) w fp' /\ NoDup fp' /\ post h ps fp h' ps' fp').
+  { intros Hev Hhv. cbv zeta. unfold make_array, register. rewrite Hev, Nat.max_0_r. fold EA EC.
+    pose proof (fresh3 h1 EA us EC) as F. rewrite HlEA, HlEC in F.
+    replace (hlen v - (en - st) + hlen u) with (st + length us + (length E - en)) by lia.
+    rewrite Hus. rewrite F.
+    destruct (splice_fresh_g h1 ps1 jsA EA fpsA jsW' us fu jsC EC fpsC (concat (fpsA ++ fu ++ fpsC)) P6 HA1 Hu HC1 ND3 ltac:(auto))
+      as (R1 & R2 & R3).
+    assert (HlEN : length (EA ++ us ++ EC) = st + length us + (length E - en)) by (rewrite !app_length; lia).
+    rewrite HlEN in R1.
+    do 4 eexists. split; [reflexivity|]. split; [exact R1|]. split; [exact R2|].
+    eapply post_trans; eauto. }
+  unfold slice_write.
+  assert (Huarr : match u with HArr _ _ _ _ | HNilArr => True | _ => False end) by (destruct u; auto).
+  destruct (node_alloc_cases _ _ _ _ _ _ _ Hnode) as [(Ha & a & len & cells & -> & Hna & Hl & HE & Hp & Hjk & Hfp) | Ha].
+  - (* v allocated *)
+    pose proof (nth_error_lt _ _ _ Hna) as Halt.
+    assert (Hafps : ~ In a (concat fps)) by (subst fp; inversion ND; auto).
+    assert (Hna1 : nth_error h1 a = Some (OArr cells)).
+    { rewrite P2; auto. }
+    assert (Hal1 : allocated (Some ps1) (HArr a 0 len (length cells)) = true) by (apply allocated_arr; auto).
+    assert (Hev : elems h1 (HArr a 0 len (length cells)) = E).
+    { simpl. rewrite (cells_of_nth _ _ _ Hna1). try rewrite skipn_O. auto. }
+    assert (HlE : length E = len) by (rewrite HE, firstn_length; lia).
+    destruct (Nat.eqb (hlen u) (en - st)) eqn:Q.
+    + (* same length: written in place *)
+      apply Nat.eqb_eq in Q.
+      set (M := firstn (en - st) (skipn st E)). set (N := skipn len cells).
+      assert (Hcells : cells = EA ++ M ++ EC ++ N).
+      { rewrite <- (firstn_skipn len cells) at 1. fold N. rewrite <- HE. rewrite (split3 E st en Hse) at 1.
+        fold EA M EC. rewrite <- !app_assoc. auto. }
+      assert (HlM : length M = en - st) by (unfold M; rewrite firstn_length, skipn_length; lia).
+      assert (Hw : write_cells h1 a (0 + st) us = set_list h1 a (OArr (EA ++ us ++ EC ++ N))).
+      { cbn [Nat.add]. rewrite <- HlEA. apply (write_cells_mid us h1 a EA M (EC ++ N)); auto. lia. lia. rewrite <- Hcells. auto. }
+      assert (NDa : NoDup (a :: concat (fpsA ++ fu ++ fpsC))).
+      { constructor; auto. intro Hc. destruct (HFPsub _ Hc) as [H|H]; [|lia].
+        rewrite !concat_app, !in_app_iff in Hc. destruct Hc as [Hc|[Hc|Hc]].
+        - apply Hafps. auto.
+        - destruct (P5 _ Hc) as [H0|H0]; [apply Hafps; auto | lia].
+        - apply Hafps. auto. }
+      rewrite Hcells in Hna1.
+      destruct (splice_inplace_g h1 ps1 a jsA EA fpsA M jsW' us fu jsC EC fpsC N (a :: concat (fpsA ++ fu ++ fpsC))
+                  P6 Hna1 (P3 _ Hp) Hjk HA1 Hu HC1 ltac:(lia) NDa ltac:(intros; right; auto) ltac:(left; auto))
+        as (R1 & R2 & R3).
+      destruct u as [| | | | | |bu ou lu cu|]; try contradiction.
+      * rewrite Q, Hal1. cbn [andb]. fold us. rewrite Hw.
+        assert (Hl1 : length (EA ++ us ++ EC) = len) by (rewrite !app_length; lia).
+        assert (Hl2 : length (EA ++ us ++ EC ++ N) = length cells) by (rewrite Hcells; rewrite !app_length; lia).
+        rewrite Hl1, Hl2 in R1.
+        do 4 eexists. split; [reflexivity|]. split; [exact R1|]. split; [exact R2|].
+        eapply post_trans; eauto. intros a0 [<-|H]; [left; subst fp; left; auto | apply HFPsub; auto].
+      * rewrite Q, Hal1. cbn [andb]. fold us. rewrite Hw.
+        assert (Hl1 : length (EA ++ us ++ EC) = len) by (rewrite !app_length; lia).
+        assert (Hl2 : length (EA ++ us ++ EC ++ N) = length cells) by (rewrite Hcells; rewrite !app_length; lia).
+        rewrite Hl1, Hl2 in R1.
+        do 4 eexists. split; [reflexivity|]. split; [exact R1|]. split; [exact R2|].
+        eapply post_trans; eauto. intros a0 [<-|H]; [left; subst fp; left; auto | apply HFPsub; auto].
+    + destruct u as [| | | | | |bu ou lu cu|]; try contradiction.
+      * try rewrite Q; cbn [andb]; fold us; apply Hfresh; auto; simpl; lia.
+      * try rewrite Q; cbn [andb]; fold us; apply Hfresh; auto; simpl; lia.
+  - (* v nil or unknown to the allocator: always a fresh array *)
+    assert (Hal1 : allocated (Some ps1) v = false).
+    { destruct Hnode as [(-> & _) | (a & off & len & cap & cells & -> & Hna & _ & _ & _ & Hcase)]; auto.
+      destruct Hcase as [(Hnaa & _) | (Hp & -> & _)].
+      - destruct (allocated (Some ps1) (HArr a off len cap)) eqn:Eq; auto. apply allocated_arr in Eq.
+        destruct (P4 a) as [H|H]. { left; eauto. } { contradiction. } apply nth_error_lt in Hna. lia.
+      - rewrite (proj2 (allocated_arr ps a 0 len cap) Hp) in Ha. discriminate. }
+    assert (Hev : elems h1 v = E /\ hlen v = length E).
+    { destruct Hnode as [(-> & _ & -> & _) | (a & off & len & cap & cells & -> & Hna & Hl & -> & _ & Hcase)]; auto.
+      assert (Hna1 : nth_error h1 a = Some (OArr cells)).
+      { rewrite P2; auto. eapply nth_error_lt; eauto. intro Hm. apply HinM in Hm. apply Hcl in Hm.
+        destruct Hcase as [(Hnaa & _ & ->) | (Hp & -> & _)]. { destruct Hm as [[] _]. }
+        rewrite (proj2 (allocated_arr ps a 0 len cap) Hp) in Ha. discriminate. }
+      simpl. rewrite (cells_of_nth _ _ _ Hna1). split; auto. rewrite firstn_length, skipn_length. lia. }
+    destruct Hev as [Hev Hhv].
+    destruct u as [| | | | | |bu ou lu cu|]; try contradiction;
+      rewrite Hal1, andb_false_r; fold us; apply Hfresh; auto.
+Qed.
+
+(* ---- assembling `.[a:b][i]...` ---- *)
+Lemma set_list_same {X} : forall (l : list X) a o, nth_error l a = Some o -> set_list l a o = l.
+Proof. induction l as [|y l IH]; intros [|a] o H; simpl in *; try discriminate. { inversion H; auto. } f_equal. auto. Qed.
+
+Lemma write_cells_id : forall h a c en, nth_error h a = Some (OArr c) -> en <= length c ->
+  write_cells h a 0 (firstn en c) = h.
+Proof.
+  intros h a c en Hn Hen.
+  pose proof (write_cells_mid (firstn en c) h a [] (firstn en c) (skipn en c)) as W. simpl in W.
+  rewrite firstn_skipn in W. rewrite W; auto. { apply set_list_same. auto. } eapply nth_error_lt; eauto.
+Qed.
+
+Lemma sub_nat : forall {X} (l : list X) zs ze, (0 <= zs <= ze)%Z ->
+  sub l zs ze = firstn (Z.to_nat ze - Z.to_nat zs) (skipn (Z.to_nat zs) l).
+Proof. intros. unfold sub. f_equal. lia. Qed.
+
+Lemma skipn_firstn_c {X} : forall m n (l : list X), skipn m (firstn n l) = firstn (n - m) (skipn m l).
+Proof.
+  induction m; intros; simpl. { rewrite Nat.sub_0_r. auto. }
+  destruct n; simpl. { auto. } destruct l; simpl. { rewrite firstn_nil. auto. } apply IHm.
+Qed.
+
+Lemma window_elems {X} : forall (cells : list X) off len st en, en <= len -> st <= en ->
+  firstn (en - st) (skipn (off + st) cells) = firstn (en - st) (skipn st (firstn len (skipn off cells))).
+Proof.
+  intros. rewrite skipn_firstn_c. rewrite firstn_firstn. rewrite skipn_add. f_equal. lia.
+Qed.
+
+Lemma skipn_firstn_app {X} : forall (l : list X) j en u, j < en -> en <= length l ->
+  firstn j (firstn en l) ++ u :: skipn (S j) (firstn en l) ++ skipn en l = firstn j l ++ u :: skipn (S j) l.
+Proof.
+  intros. rewrite firstn_firstn. replace (Nat.min j en) with j by lia. f_equal. f_equal.
+  rewrite skipn_firstn_c. rewrite <- (firstn_skipn (en - S j) (skipn (S j) l)) at 2. f_equal.
+  rewrite skipn_add. f_equal. lia.
+Qed.
+
+Lemma sound_slice_idx : forall cfg s e i r, three_index cfg = true -> sound_at cfg r -> sound_at cfg (PS s e :: PI i :: r).
+Proof.
+  intros cfg s e i r H3 IH h ps v j fp n jn Hwf Hr ND Hn.
+  rewrite update_slice_eq. rewrite H3.
+  pose proof (orep_is_empty _ _ _ _ _ Hn) as Hemp.
+  assert (Hmain : forall js E fps, arr_node h ps js v E fps fp -> elems h v = E -> hlen v = length js ->
+    norm_nil v = v -> (j = JNull \/ j = JArr js) ->
+    match
+      (let '(st, en) := slice_bounds s e (zlen js) in
+       if (st =? en)%Z && is_empty jn then Some j
+       else match Path.update (JArr (sub js st en)) (PI i :: r) jn with
+            | Some (JArr u) => Some (JArr (firstn (Z.to_nat st) js ++ u ++ skipn (Z.to_nat en) js))
+            | Some JEmpty => Some (JArr (firstn (Z.to_nat st) js ++ repeat JEmpty (Z.to_nat (en - st)) ++ skipn (Z.to_nat en) js))
+            | _ => None
+            end)
+    with
+    | None =>
+        (let '(st, en) := slice_bounds s e (Z.of_nat (hlen v)) in
+         let st := Z.to_nat st in let en := Z.to_nat en in
+         if Nat.eqb st en && h_is_empty n then Some (h, Some ps, norm_nil v)
+         else match update cfg h (Some ps) (reslice true v st en) (PI i :: r) n with
+              | None => None | Some (h1, A1, u) => slice_write h1 A1 v st en u end) = None
+    | Some j' => exists h' ps' u fp',
+        (let '(st, en) := slice_bounds s e (Z.of_nat (hlen v)) in
+         let st := Z.to_nat st in let en := Z.to_nat en in
+         if Nat.eqb st en && h_is_empty n then Some (h, Some ps, norm_nil v)
+         else match update cfg h (Some ps) (reslice true v st en) (PI i :: r) n with
+              | None => None | Some (h1, A1, u) => slice_write h1 A1 v st en u end) = Some (h', Some ps', u) /\
+        orep h' ps' j' u fp' /\ NoDup fp' /\ post h ps fp h' ps' fp'
+    end).
+  { intros js E fps Hnode Hel Hhl Hnn Hj.
+    destruct (node_facts _ _ _ _ _ _ _ Hnode ND) as (Hrep & NDc & Hcl).
+    destruct (reps3_length _ _ _ _ Hrep) as [L1 L2].
+    unfold zlen. rewrite Hhl, Hnn.
+    destruct (slice_bounds s e (Z.of_nat (length js))) as [zs ze] eqn:SB.
+    destruct (slice_bounds_range _ _ _ _ _ (Nat2Z.is_nonneg _) SB) as [[B1 B2] B3].
+    rewrite (sub_nat js zs ze) by lia.
+    set (st := Z.to_nat zs). set (en := Z.to_nat ze).
+    assert (Hse : st <= en) by (unfold st, en; lia).
+    assert (HelE : en <= length E) by (unfold en; lia).
+    replace (zs =? ze)%Z with (Nat.eqb st en).
+    2:{ unfold st, en. destruct (Nat.eqb (Z.to_nat zs) (Z.to_nat ze)) eqn:Q.
+        - apply Nat.eqb_eq in Q. symmetry. apply Z.eqb_eq. lia.
+        - apply Nat.eqb_neq in Q. symmetry. apply Z.eqb_neq. lia. }
+    rewrite <- Hemp.
+    destruct (Nat.eqb st en && is_empty jn) eqn:Early.
+    { exists h, ps, v, fp. split; auto. split. { destruct Hj as [-> | ->]; auto. } split; auto. apply post_refl; auto. }
+    set (jsW := firstn (en - st) (skipn st js)). set (EW := firstn (en - st) (skipn st E)).
+    set (fpsW := firstn (en - st) (skipn st fps)).
+    set (sub0 := reslice true v st en).
+    assert (HrepW : reps3 (orep h ps) jsW EW fpsW) by (apply reps3_firstn; apply reps3_skipn; auto).
+    assert (NDW : NoDup (concat fpsW)).
+    { rewrite (split3 fps st en Hse) in NDc. rewrite !concat_app in NDc.
+      apply nodup_app in NDc as (_ & N2 & _). apply nodup_app in N2. tauto. }
+    assert (HinW : forall a0, In a0 (concat fpsW) -> In a0 (concat fps)).
+    { intros a0 H. rewrite (split3 fps st en Hse), !concat_app, !in_app_iff. auto. }
+    assert (HlEW : length EW = en - st) by (unfold EW; rewrite firstn_length, skipn_length; lia).
+    (* the general case: the recursive call on the window never writes it in place *)
+    assert (Hwin :
+      ((forall ps1, alloc_wf ps1 -> (forall a0, aaddr ps1 a0 -> aaddr ps a0 \/ length h <= a0) -> allocated (Some ps1) sub0 = false) \/
+       ((forall ps1, (forall p, In p ps -> In p ps1) -> allocated (Some ps1) sub0 = true) /\
+        ~ (0 <= clamp i (-1) (Z.of_nat (length EW)) < Z.of_nat (length EW))%Z)) ->
+      match
+        match Path.update (JArr jsW) (PI i :: r) jn with
+        | Some (JArr u) => Some (JArr (firstn st js ++ u ++ skipn en js))
+        | Some JEmpty => Some (JArr (firstn st js ++ repeat JEmpty (Z.to_nat (ze - zs)) ++ skipn en js))
+        | _ => None
+        end
+      with
+      | None => match update cfg h (Some ps) sub0 (PI i :: r) n with
+                | None => None | Some (h1, A1, u) => slice_write h1 A1 v st en u end = None
+      | Some j' => exists h' ps' u fp',
+          match update cfg h (Some ps) sub0 (PI i :: r) n with
+          | None => None | Some (h1, A1, u) => slice_write h1 A1 v st en u end = Some (h', Some ps', u) /\
+          orep h' ps' j' u fp' /\ NoDup fp' /\ post h ps fp h' ps' fp'
+      end).
+    { intros Hcls.
+      assert (Hisarr : is_arr sub0).
+      { unfold sub0. destruct Hnode as [(-> & _) | (a & off & len & cap & cells & -> & _)]; exact I. }
+      assert (Helems0 : forall h1, length h <= length h1 ->
+                (forall a0, a0 < length h -> ~ In a0 (concat fpsW) -> nth_error h1 a0 = nth_error h a0) -> elems h1 sub0 = EW).
+      { intros h1 Hlen Hag. unfold sub0.
+        destruct Hnode as [(-> & _ & -> & _) | (a & off & len & cap & cells & -> & Hna & Hl & -> & _ & Hcase)].
+        - unfold EW. simpl. destruct (en - st); destruct st; auto.
+        - assert (Hna1 : nth_error h1 a = Some (OArr cells)).
+          { rewrite Hag; auto. eapply nth_error_lt; eauto. intro Hc. apply HinW in Hc.
+            destruct Hcase as [(Hnaa & _) | (_ & _ & _ & _ & Hfp)].
+            - apply (reps3_concat_fp _ _ _ _ _ _ Hrep) in Hc. tauto.
+            - subst fp. inversion ND; auto. }
+          cbn [reslice elems]. rewrite (cells_of_nth _ _ _ Hna1).
+          assert (HlE : length (firstn len (skipn off cells)) = len) by (rewrite firstn_length, skipn_length; lia).
+          destruct (Nat.eqb (en - st) 0) eqn:Z0.
+          + apply Nat.eqb_eq in Z0. unfold EW. rewrite Z0. simpl. destruct (Nat.eqb (en - st) 0); auto.
+          + rewrite andb_false_r. unfold EW. apply window_elems; lia. }
+      assert (Hhl0 : hlen sub0 = length EW).
+      { unfold sub0. destruct Hnode as [(-> & _ & -> & _) | (a & off & len & cap & cells & -> & _)].
+        - unfold EW. simpl. destruct (en - st); destruct st; auto.
+        - cbn [reslice hlen]. lia. }
+      assert (Hcap0 : hcap sub0 = length EW).
+      { unfold sub0. destruct Hnode as [(-> & _ & -> & _) | (a & off & len & cap & cells & -> & _)].
+        - unfold EW. simpl. destruct (en - st); destruct st; auto.
+        - cbn [reslice hcap]. lia. }
+      assert (Hnm : h_is_empty n = false \/ sub0 <> HNilArr).
+      { unfold sub0. destruct Hnode as [(-> & _ & -> & _) | (a & off & len & cap & cells & -> & _)].
+        - left. simpl in HelE. assert (st = en) by lia. rewrite H in Early. rewrite Nat.eqb_refl in Early. simpl in Early. congruence.
+        - right. discriminate. }
+      pose proof (window_idx cfg i r IH h ps sub0 EW jsW fpsW n jn Hwf Hisarr Helems0 Hhl0 Hcap0 HrepW NDW Hn Hnm Hcls) as Hw.
+      destruct (Path.update (JArr jsW) (PI i :: r) jn) as [j'|]; [|rewrite Hw; auto].
+      destruct Hw as (jsW' & h1 & ps1 & u & fu & -> & -> & Hisu & Hlu & Hru & NDu & Hpost).
+      eapply slice_finish; eauto. }
+    (* case A: the window starts at cell 0 of an allocated array and the index lies inside it *)
+    destruct (node_alloc_cases _ _ _ _ _ _ _ Hnode) as [(Ha & a & len & cells & Hv & Hna & Hl & HE & Hp & Hjk & Hfp) | Ha].
+    - subst v. pose proof (nth_error_lt _ _ _ Hna) as Halt.
+      assert (HlE : length E = len) by (rewrite HE, firstn_length; lia).
+      assert (Hafps : ~ In a (concat fps)) by (subst fp; inversion ND; auto).
+      destruct (Nat.eqb st 0 && ((0 <=? clamp i (-1) (Z.of_nat (en - st))) && (clamp i (-1) (Z.of_nat (en - st)) <? Z.of_nat (en - st)))%Z) eqn:CaseA.
+      + apply andb_true_iff in CaseA as [Hst0 Hin]. apply Nat.eqb_eq in Hst0. apply andb_true_iff in Hin as [Hin1 Hin2].
+        assert (Hst : st = 0) by auto. clearbody st. subst st. rewrite Nat.sub_0_r in *.
+        set (j0 := clamp i (-1) (Z.of_nat en)) in *.
+        unfold jsW, sub0. cbn [reslice skipn]. rewrite Nat.sub_0_r. cbn [Nat.add].
+        replace (Nat.eqb en 0 && Nat.eqb en 0) with false by (symmetry; apply andb_false_iff; left; apply Nat.eqb_neq; lia).
+        (* both levels unfold the index step on the window *)
+        set (k := Z.to_nat j0).
+        assert (Hk : k < en) by (unfold k; lia).
+        assert (Hzl : zlen (firstn en js) = Z.of_nat en) by (unfold zlen; rewrite firstn_length; lia).
+        cbn [Path.update]. cbv zeta. rewrite Hzl. fold j0.
+        replace (j0 <? 0)%Z with false by lia. rewrite Hin2.
+        assert (Hsub : is_arr (HArr a 0 en en)) by exact I.
+        rewrite (update_idx_arr_gen _ _ _ _ _ _ _ Hsub). cbv zeta. cbn [hlen]. fold j0.
+        replace (j0 <? 0)%Z with false by lia. rewrite Hin2. fold k.
+        assert (Hchild_j : nth k (firstn en js) JNull = nth k js JNull).
+        { rewrite <- (firstn_skipn en js) at 2. rewrite app_nth1; auto. rewrite firstn_length. lia. }
+        assert (Hchild_x : nth k (elems h (HArr a 0 en en)) HNull = nth k E HNull).
+        { cbn [elems]. rewrite (cells_of_nth _ _ _ Hna), skipn_O. rewrite HE.
+          replace (firstn en cells) with (firstn en (firstn len cells)) by (rewrite firstn_firstn; f_equal; lia).
+          rewrite <- (firstn_skipn en (firstn len cells)) at 2. rewrite app_nth1; auto.
+          rewrite !firstn_length. lia. }
+        rewrite Hchild_j, Hchild_x.
+        assert (Hkl : k < length js) by lia.
+        pose proof (reps3_nth _ JNull HNull [] _ _ _ _ Hrep Hkl) as Hx.
+        assert (NDx : NoDup (nth k fps [])) by (apply NoDup_nth; auto).
+        pose proof (IH h ps _ _ _ n jn Hwf Hx NDx Hn) as IHc.
+        destruct (Path.update (nth k js JNull) r jn) as [ju|]; [|rewrite IHc; auto].
+        destruct IHc as (h1 & ps1 & u & fu & -> & Hu & NDu & Hpost).
+        assert (Hnode' : arr_node h ps js (HArr a 0 len (length cells)) E fps fp).
+        { right. exists a, 0, len, (length cells), cells. subst fp. rewrite skipn_O. repeat split; auto. right. auto 6. }
+        destruct (arr_step h ps js _ E fps fp k _ _ h1 ps1 ju u fu Hwf Hnode' ND Hx Hu NDu Hpost)
+          as (h' & ps' & w & fp' & Hw & Hr' & ND' & Hpost').
+        exists h', ps', w, fp'. split; [|split; [|split]]; auto.
+        * (* the window is written in place, the splice copies the window onto itself *)
+          pose proof Hpost as (P1 & P2 & P3 & P4 & P5 & P6 & P7).
+          assert (Hna1 : nth_error h1 a = Some (OArr cells)).
+          { rewrite P2; auto. intro Hc. apply Hafps. eapply nth_in_concat; eauto. }
+          unfold arr_write in Hw |- *. cbn [hlen hcap] in *.
+          assert (Hal : allocated (Some ps1) (HArr a 0 en en) = true) by (apply allocated_arr; auto).
+          assert (Hal' : allocated (Some ps1) (HArr a 0 len (length cells)) = true) by (apply allocated_arr; auto).
+          rewrite Hal. rewrite Hal' in Hw.
+          replace (Nat.ltb k en) with true by (symmetry; apply Nat.ltb_lt; lia).
+          replace (Nat.ltb k (length cells)) with true in Hw by (symmetry; apply Nat.ltb_lt; lia).
+          replace (Nat.leb en k) with false by (symmetry; apply Nat.leb_gt; lia).
+          replace (Nat.leb len k) with false in Hw by (symmetry; apply Nat.leb_gt; lia).
+          unfold slice_write. cbn [hlen]. rewrite Nat.sub_0_r, Nat.eqb_refl.
+          set (h2 := write_cell h1 a (0 + k) u) in *.
+          assert (Hal2 : allocated (Some ps1) (HArr a 0 len (length cells)) = true) by auto.
+          rewrite Hal2. cbn [andb elems Nat.add].
+          assert (Hn2 : nth_error h2 a = Some (OArr (set_list cells k u))).
+          { unfold h2. rewrite (write_cell_eq _ _ _ _ _ Hna1). apply nth_error_set_list_same.
+            destruct Hpost as (Q1 & _). lia. }
+          rewrite (cells_of_nth _ _ _ Hn2), skipn_O.
+          rewrite (write_cells_id h2 a (set_list cells k u) en Hn2) by (rewrite set_list_length; lia).
+          rewrite <- Hw. reflexivity.
+        * (* the value level: splicing the updated window = updating the element *)
+          cbn [firstn app]. unfold set_nth in *. rewrite firstn_length.
+          replace (k - Nat.min en (length js)) with 0 by lia.
+          replace (k - length js) with 0 in Hr' by lia. cbn [repeat app] in *.
+          rewrite <- app_assoc. cbn [app]. rewrite skipn_firstn_app by lia. exact Hr'.
+      + (* case B: the window is never written in place *)
+        assert (Hnotin : st = 0 -> ~ (0 <= clamp i (-1) (Z.of_nat (en - st)) < Z.of_nat (en - st))%Z).
+        { intros Hs0 Hc. rewrite Hs0 in CaseA, Hc. simpl in CaseA. destruct Hc as [Hc1 Hc2].
+          apply Z.leb_le in Hc1. apply Z.ltb_lt in Hc2. rewrite Hc1, Hc2 in CaseA. discriminate. }
+        apply Hwin. unfold sub0. cbn [reslice]. rewrite HlEW.
+        destruct (Nat.eqb (en - st) 0 && Nat.eqb (en - st) 0) eqn:Z0.
+        * (* an empty window keeps the pointer of the array *)
+          right. split. { intros ps1 Hinc. apply allocated_arr. auto. }
+          apply andb_true_iff in Z0 as [Z0 _]. apply Nat.eqb_eq in Z0. rewrite Z0. simpl. lia.
+        * destruct st as [|st'] eqn:Est.
+          -- right. split. { intros ps1 Hinc. apply allocated_arr. auto. } apply Hnotin. auto.
+          -- left. intros ps1 Hwf1 Hadd. destruct (allocated (Some ps1) (HArr a (0 + S st') (en - S st') (en - S st'))) eqn:Eq; auto.
+             apply allocated_arr in Eq. apply Hwf1 in Eq. discriminate.
+    - (* v is nil or unknown to the allocator *)
+      apply Hwin. left. intros ps1 Hwf1 Hadd. unfold sub0.
+      destruct Hnode as [(-> & _) | (a & off & len & cap & cells & -> & Hna & _ & _ & _ & Hcase)]; auto.
+      destruct Hcase as [(Hnaa & _) | (Hp & -> & _)].
+      + cbn [reslice]. match goal with |- allocated _ ?x = false => destruct (allocated (Some ps1) x) eqn:Eq; auto end.
+        apply allocated_arr in Eq. destruct (Hadd a) as [H|H]. { left; eauto. } { contradiction. }
+        apply nth_error_lt in Hna. lia.
+      + rewrite (proj2 (allocated_arr ps a 0 len cap) Hp) in Ha. discriminate. }
+  destruct j; cbn [Path.update].
+  - destruct Hr as [-> ->]. apply (Hmain [] [] []); auto. left. auto 6.
+  - destruct Hr as [-> _]. auto.
+  - destruct Hr as [-> _]. auto.
+  - destruct Hr as [-> _]. auto.
+  - destruct Hr as [-> ->]. exists h, ps, HEmpty, []. split; auto. split. { split; auto. } split. constructor. apply post_refl; auto.
+  - pose proof Hr as Hr0.
+    apply orep_arr in Hr as (a & off & len & cap & cells & fps & -> & Hna & Hl & Hc & Hcase).
+    destruct (reps3_length _ _ _ _ Hc) as [L1 L2].
+    apply (Hmain l (firstn len (skipn off cells)) fps); auto.
+    + right. exists a, off, len, cap, cells. auto 8.
+    + simpl. rewrite (cells_of_nth _ _ _ Hna). auto.
+    + simpl. rewrite L1, firstn_length, skipn_length. lia.
+  - apply orep_obj in Hr as (a & kvs & fps & -> & _). auto.
+Qed.
+
+(* ---- update is sound for every path in which no slice is directly followed by another slice ---- *)
+Theorem update_sound_ok : forall cfg p, three_index cfg = true -> ok_path p -> sound_at cfg p.
+Proof.
+  intros cfg p H3. induction 1.
+  - apply sound_nil.
+  - apply sound_slice_last.
+  - apply sound_key. auto.
+  - apply sound_idx. auto.
+  - apply sound_slice_idx; auto.
+Qed.
